@@ -29,7 +29,9 @@
    `DataSent` / `HeadersSent` = data_send_process / headers_send_process.  `StreamOpened` /
    `StreamClosed` = an h2 stream becomes open / stops being open (the code asks h2:
    any(s.open for s in streams.values())).  `Lost` = Connection.close called for another reason
-   (connection_lost, GOAWAY, protocol error): both timers are cancelled.
+   (connection_lost, GOAWAY, protocol error): both timers are cancelled.  `Acked` = Connection.ack
+   (the application consumed inbound DATA, flow-control credit goes back to the peer): no effect on
+   any keepalive variable -- in particular it does NOT reset ping_count_in_sequence.
 
    Totalisation: with time <= 0 or timeout <= 0 (rejected by Configuration's validators, see
    Gen/FactsC17.v) call_later would fire at once; the model clamps `now` with Z.max instead.  No
@@ -68,18 +70,21 @@ Inductive ev :=
 | HeadersSent
 | StreamOpened
 | StreamClosed
-| Lost.
+| Lost
+| Acked.          (* Connection.ack: INBOUND data was consumed and credited (WINDOW_UPDATE) *)
 
 (* what is written to the log: the outputs (IPing = PING frame sent, ISkip = `_ping` ran and
    `_is_need_send_ping` said no, IClose = the close timer ran Connection.close) and the inputs *)
-Inductive item := IPing | ISkip | IClose | IAck | IData | IHeaders | IOpen | IShut | ILost | ITick.
+Inductive item := IPing | ISkip | IClose | IAck | IData | IHeaders | IOpen | IShut | ILost | ITick
+  | IRecv.
 
 Definition log := list (Z * item).
 
 Definition item_eqb (a b : item) : bool :=
   match a, b with
   | IPing, IPing | ISkip, ISkip | IClose, IClose | IAck, IAck | IData, IData
-  | IHeaders, IHeaders | IOpen, IOpen | IShut, IShut | ILost, ILost | ITick, ITick => true
+  | IHeaders, IHeaders | IOpen, IOpen | IShut, IShut | ILost, ILost | ITick, ITick
+  | IRecv, IRecv => true
   | _, _ => false
   end.
 
@@ -183,6 +188,9 @@ Definition step (c : cfg) (s : st) (e : ev) : st * log :=
   | Lost =>           (* Connection.close from connection_lost / GOAWAY / protocol error *)
       (mkSt (now s) None None (pcount s) (last_ping s) (last_data s) (opens s) true,
        [(now s, ILost)])
+  | Acked =>          (* Connection.ack touches no keepalive state: received data (and the
+                         WINDOW_UPDATE it triggers) is not "data sent" *)
+      (s, [(now s, IRecv)])
   end.
 
 (* one step on (state, log so far) *)
